@@ -149,7 +149,11 @@ let () =
           | L [A "addv"; n; v] -> AddV (cps n, value v) | L [A "remv"; n] -> RemV (cps n) | L [A "clrv"] -> ClrV
           | L [A "addf"; n; A t] -> AddF (cps n, n_of_int (int_of_string t)) | L [A "remf"; n] -> RemF (cps n) | _ -> failwith "op" in
         let so = function ONone -> "none" | OVal v -> show_value v | OFn (d, t) -> "fn" ^ show_str d ^ "#" ^ string_of_int (int_of_n t) | OUnit -> "unit" in
-        let res = run_ops empty_env (List.map op ops) (List.map cps qs) in
+        let ops' = List.map op ops and qs' = List.map cps qs in
+        let sigma n = List.exists (fun c -> int_of_n c = 931) n in
+        let names = qs' @ List.concat_map (function AddV (n, _) -> [n] | RemV n -> [n] | AddF (n, _) -> [n] | RemF n -> [n] | ClrV -> []) ops' in
+        if List.exists sigma names then Printf.printf "%s UNMODELLED(final-sigma)\n" id else
+        let res = run_ops empty_env ops' qs' in
         let line (((out, vs), fs), lst) =
           so out ^ "|" ^ String.concat "," (List.map so vs) ^ "|" ^ String.concat "," (List.map so fs) ^ "|" ^
           String.concat "," (List.sort compare (List.map (fun (d, t) -> show_str d ^ "#" ^ string_of_int (int_of_n t)) lst)) in
@@ -189,6 +193,18 @@ let () =
           if !start >= 0 then emit !start hi;
           Buffer.contents out in
         Printf.printf "%s R=A:%s;N:%s\n" id (ranges u_alpha) (ranges u_num)
+    | L [A "unicase"; A id; A lo; A hi] ->
+        let lo = int_of_string lo and hi = int_of_string hi in
+        let bl = Buffer.create 65536 and bu = Buffer.create 65536 in
+        let show l = String.concat "." (List.map (fun c -> string_of_int (int_of_n c)) l) in
+        for c = lo to hi do
+          if c < 0xD800 || c > 0xDFFF then begin
+            let l = u_lower (n_of_int c) and u = u_upper (n_of_int c) in
+            (match l with [x] when int_of_n x = c -> () | _ -> (if Buffer.length bl > 0 then Buffer.add_char bl ','); Buffer.add_string bl (Printf.sprintf "%d>%s" c (show l)));
+            (match u with [x] when int_of_n x = c -> () | _ -> (if Buffer.length bu > 0 then Buffer.add_char bu ','); Buffer.add_string bu (Printf.sprintf "%d>%s" c (show u)))
+          end
+        done;
+        Printf.printf "%s R=L:%s;U:%s\n" id (Buffer.contents bl) (Buffer.contents bu)
     | L (A k :: A id :: _) -> Printf.printf "%s NOMODEL:%s\n" id k
     | _ -> failwith "case"
   done with End_of_file -> ()
